@@ -322,6 +322,9 @@ JSON_TREES = [
                             ["D", "d1", "1.1", {"stylesheet": {"href": "x y.css"}, "source": {"href": "http://h/"}}]]],
     ["L", [["T", "x"], ["D", "d3", "3", {}], ["E", "p", True, [], [["T", "y"]]]]],
     ["L", [["E", "p", True, [], []]]],
+    # a dependency whose head holds tags AND another dependency (reported, but not part of the head markup)
+    ["E", "div", True, [], [["T", "n"], ["D", "outer", "1.0", {"head_spec": [["E", "title", True, [], [["T", "t"]]],
+                                                                           ["D", "inner", "2.0", {"script": {"src": "i.js"}}]]}]]],
 ]
 
 
